@@ -165,6 +165,10 @@ func (a *Analysis) rawUses(root ssa.Value) (bad []rawUse, sanitised int) {
 				}
 				cc := x.Common()
 				callee := cc.StaticCallee()
+				if callee != nil && len(cc.Args) == 1 && cc.Args[0] == v && a.P.nfkdHelper(callee) {
+					sanitised++ // norm.NFKD.String behind a "normalised already?" test
+					continue
+				}
 				if callee == nil && !cc.IsInvoke() {
 					// a call through a function-valued package variable that only its declaration
 					// assigns (a seam): the function it holds
@@ -1358,7 +1362,7 @@ func (a *Analysis) ruleS2() {
 					// no data-dependent condition controls this exit in this context
 					if lc.Const == nil {
 						// unsupported language: the nil map makes every lookup fail (condition folded)
-						if ev.Kind == ekFresh || ev.Kind == ekUnknown && ev.NonNil {
+						if ev.Kind == ekFresh || ev.Kind == ekUnknown && ev.NonNil || ev.Kind == ekWrap && a.privateFreshErr(ev.G) {
 							r.OK("S2e", key, xp, ctx.Name, "unsupported language: every lookup fails, a non-nil error is returned")
 							continue
 						}
@@ -1401,7 +1405,7 @@ func (a *Analysis) ruleS2() {
 					switch {
 					case ev.Kind == ekNil || ev.Kind == ekUnknown && !ev.NonNil:
 						r.Bad("S2a+S2s", key, xp, ctx.Name, "a token that is not in the list yields %v: the sentence can be accepted although a word is not in the list", ev)
-					case ev.Kind != ekFresh:
+					case ev.Kind != ekFresh && !(ev.Kind == ekWrap && a.privateFreshErr(ev.G)):
 						r.Bad("S2e", key, xp, ctx.Name, "a token that is not in the list yields %v; it must be a non-nil error distinct from both sentinels", ev)
 					case !tokNamed:
 						r.Bad("S2e", key, xp, ctx.Name, "the error for an unknown token (%v) does not name that token (%v)", ev, c.B)
